@@ -88,7 +88,7 @@ def gen_commands(r, n):
     for k in range(n):
         kind = r.weighted([(8, "E"), (5, "A"), (6, "commit"), (3, "add"), (4, "ro"), (2, "branch"), (2, "switch"),
                            (2, "reset"), (2, "stash"), (2, "merge"), (2, "rebase"), (1, "cherry"), (2, "tag"),
-                           (2, "rm_mv"), (2, "restore"), (3, "invalid"), (2, "plumbing"), (2, "globalopt"), (1, "usernotes"), (3, "alias")])
+                           (2, "rm_mv"), (2, "restore"), (3, "invalid"), (2, "plumbing"), (2, "globalopt"), (1, "usernotes"), (3, "alias"), (1, "sigpipe")])
         if kind in ("E", "A"):
             cmds.append((kind, r.pick(files), r.below(10 ** 6)))
         elif kind == "commit":
@@ -146,6 +146,11 @@ def gen_commands(r, n):
             val = gen_alias_value(r, k)
             cmds.append(("git", ["config", f"alias.{name}", val]))
             cmds.append(("git", [name] + r.pick([[], [], ["--"], ["-q"]]) if val.startswith("rev-parse") else [name]))
+        elif kind == "sigpipe":
+            # the reader of git's stdout goes away early (`git log -p | head -1`): git dies of SIGPIPE and the
+            # wrapper must end the same way
+            cmds.append(("pipe", r.pick([["cat-file", "blob", "HEAD:big.txt"], ["--no-pager", "log", "-p", "--all"],
+                                         ["--no-pager", "show", "HEAD:big.txt"], ["--no-pager", "grep", "-h", "big", "HEAD"]])))
         elif kind == "globalopt":
             cmds.append(("git", r.pick([["-c", "core.abbrev=9", "log", "--oneline", "-2"], ["--no-pager", "diff"], ["-C", ".", "status", "-s"],
                                         ["-c", "user.name=Zed", "commit", "--allow-empty", "-m", f"g{k}"], ["--literal-pathspecs", "add", "a.txt"],
@@ -213,6 +218,26 @@ def classify_internal(argv):
     return False, f"unclassified internal subcommand {sub}"
 
 
+def run_closed_pipe(sim, argv):
+    """run git (plain or through the proxy, as sim.git would) with stdout a pipe whose reader reads one byte and
+    leaves; returns the termination status as the parent sees it (negative: killed by that signal)"""
+    import subprocess
+    from .gitsim import REALGIT
+    if sim.mode == "wrapper":
+        cmd, env = [sim.binary] + list(argv), sim.env({"GIT_AI": "git"})
+    else:
+        cmd, env = [REALGIT] + list(argv), sim.env(None)
+    sim.clock += 1
+    p = subprocess.Popen(cmd, cwd=sim.repo, env=env, stdout=subprocess.PIPE, stderr=subprocess.DEVNULL, stdin=subprocess.DEVNULL)
+    p.stdout.read(1)
+    p.stdout.close()
+    try:
+        return p.wait(timeout=120)
+    except subprocess.TimeoutExpired:
+        p.kill()
+        return 124
+
+
 def scenario(args):
     base, seed, idx, opts = args
     r = C.Rng(seed).fork(f"c06-{idx}")
@@ -221,7 +246,8 @@ def scenario(args):
     argv_log = os.path.join(prox.base, "argv.log")
     fails, internal_bad, n_cmd, kinds = [], [], 0, {}
     try:
-        base_files = {"a.txt": "a1\na2\na3\n", "dir/b.txt": "b1\nb2\n", "c d.txt": "c1\n"}
+        base_files = {"a.txt": "a1\na2\na3\n", "dir/b.txt": "b1\nb2\n", "c d.txt": "c1\n",
+                      "big.txt": "".join(f"big line {i} xxxxxxxxxxxxxxxxxxxxxxxxxxxxxxxxxxxxxxxxxxxxxxxx\n" for i in range(6000))}
         for s in (plain, prox):
             s.init(base_files)
             hd = os.path.join(s.repo, ".git", "hooks")
@@ -244,6 +270,15 @@ def scenario(args):
                         s.checkpoint_ai("s1", [f])
                     else:
                         s.clock += 2 if s is plain and c[0] == "A" else 0     # keep the two clocks in step
+                continue
+            if c[0] == "pipe":
+                n_cmd += 1
+                kinds["<sigpipe>"] = kinds.get("<sigpipe>", 0) + 1
+                rcs = [run_closed_pipe(sm, c[1]) for sm in (plain, prox)]
+                if rcs[0] != rcs[1]:
+                    fails.append({"what": f"proxy differs from git: termination status with the reader of stdout gone: "
+                                          f"{rcs[0]} vs {rcs[1]} (negative = killed by that signal)", "command": c[1]})
+                    break
                 continue
             argv = c[1]
             n_cmd += 1
@@ -280,7 +315,7 @@ def scenario(args):
                 ok, why = classify_internal(a)
                 if not ok:
                     internal_bad.append({"argv": a, "why": why})
-        return {"idx": idx, "commands": [c[1] if c[0] == "git" else c[0] for c in cmds], "failures": fails,
+        return {"idx": idx, "commands": [c[1] if c[0] in ("git", "pipe") else c[0] for c in cmds], "failures": fails,
                 "internal_bad": internal_bad[:5], "n_cmd": n_cmd, "kinds": kinds,
                 "n_internal": sum(1 for _ in open(argv_log)) if os.path.exists(argv_log) else 0}
     finally:
